@@ -141,6 +141,22 @@ impl Append for Cap {
     fn flush(&self) {}
 }
 
+/// Like `Cap`, but reports an error after recording the delivery (a full disk, a failed roll ...).
+#[derive(Debug)]
+pub struct FailingCap {
+    pub name: String,
+    pub sink: Sink,
+}
+
+impl Append for FailingCap {
+    fn append(&self, record: &Record) -> anyhow::Result<()> {
+        let id = record.args().to_string().parse::<u64>().unwrap_or(u64::MAX);
+        self.sink.lock().unwrap().push((self.name.clone(), id));
+        Err(anyhow::anyhow!("scripted failure of appender {}", self.name))
+    }
+    fn flush(&self) {}
+}
+
 pub fn new_sink() -> Sink {
     Arc::new(Mutex::new(vec![]))
 }
@@ -151,7 +167,18 @@ pub fn build_config(
     spec: &ConfSpec,
     sink: &Sink,
     tag: &str,
+    rng: Option<&mut Rng>,
+) -> Result<Config, String> {
+    build_config_failing(spec, sink, tag, rng, &[])
+}
+
+/// `failing`: names of appenders that return an error from `append` (after recording the delivery).
+pub fn build_config_failing(
+    spec: &ConfSpec,
+    sink: &Sink,
+    tag: &str,
     mut rng: Option<&mut Rng>,
+    failing: &[String],
 ) -> Result<Config, String> {
     let mut apps: Vec<&String> = spec.appenders.iter().collect();
     let mut logs: Vec<&LoggerSpec> = spec.loggers.iter().collect();
@@ -161,13 +188,12 @@ pub fn build_config(
     }
     let mut b = Config::builder();
     for a in apps {
-        b = b.appender(Appender::builder().build(
-            a.clone(),
-            Box::new(Cap {
-                name: format!("{}{}", tag, a),
-                sink: sink.clone(),
-            }),
-        ));
+        let boxed: Box<dyn Append> = if failing.contains(a) {
+            Box::new(FailingCap { name: format!("{}{}", tag, a), sink: sink.clone() })
+        } else {
+            Box::new(Cap { name: format!("{}{}", tag, a), sink: sink.clone() })
+        };
+        b = b.appender(Appender::builder().build(a.clone(), boxed));
     }
     for l in logs {
         let mut lb = Logger::builder().additive(l.additive);
